@@ -4,9 +4,9 @@
 package c05
 
 import (
-	"math"
 	"encoding/json"
 	"fmt"
+	"math"
 	"time"
 
 	sentinel "github.com/alibaba/sentinel-golang/api"
@@ -47,6 +47,7 @@ func (P) Describe() harness.Description {
 		Level:   "exploration",
 		Rule: "case = (one hotspot QPS rule: reject or throttling, value selected by index / negative index / attachment key, threshold 0-6, burst 0-3, duration 1-5 s, max queueing 0-3000 ms, specific-item table, parameter capacity default or 1-3; 30-150 requests over a value alphabet of 8 typed values with batches 1-4 and ticks biased to the duration and the pacing interval; Sleep captured at the clock seam). " +
 			"Per (rule,value) while the capacity was never exceeded: reject mode - admitted tokens <= (T+burst)+T*elapsed/D since first seen, <= 2(T+burst) in any window of length D, a value idle for more than D is granted any batch <= T; throttling - consecutive pass times >= floor(b*D/T) ms apart, every requested wait < max queueing time; T_v <= 0 => always rejected; requests without the selected argument are never limited; " +
+			"2-3 callers under the seeded scheduler sending the first requests for a value (8 % of the cases): reject rule at a frozen instant - exactly min(requests, T+burst) admitted; throttling rule with callers that move the clock - the possible pass times of any two admitted requests are not all closer than floor(D/T) ms, waits < max queueing time; " +
 			"independence: every decision (and wait) equals that of a shadow resource with the same rule that only ever receives this value, at the same virtual times. With the capacity exceeded only termination and absence of panics are asserted. non-trivial = at least two values were each both admitted and rejected; distinct = hash(config, ops)",
 		Assumptions: []string{"clock seam is integer milliseconds for hotspot rules: pacing interval rounded down to ms", "a reference LRU is not needed: independence and envelopes are asserted only in runs whose number of distinct values never exceeds the configured capacity"},
 		Real:        []string{"api.Entry(WithArgs/WithAttachments)", "core/hotspot (slot, reject and throttling controllers, LRU caches, rule manager)"},
@@ -64,6 +65,18 @@ func (P) Gen(rng *sim.Rng, tier string) *harness.Case {
 		for i := range callers {
 			for j, n := 0, rng.Range(1, 3); j < n; j++ {
 				callers[i] = append(callers[i], harness.Op{K: "req", E: rng.Intn(2)})
+			}
+		}
+		if rng.Chance(0.5) {
+			// the same callers under a throttling rule, with a clock that some of them move by a few ms
+			cfg.Throttle, cfg.Burst, cfg.DSec = true, 0, int64(rng.Range(1, 2))
+			ival := cfg.DSec * 1000 / cfg.T
+			cfg.QMs = []int64{0, ival + 1, 2*ival + 1, 20000}[rng.Intn(4)]
+			for i := range callers {
+				if rng.Chance(0.4) {
+					at := rng.Intn(len(callers[i]) + 1)
+					callers[i] = append(callers[i][:at:at], append([]harness.Op{{K: "tick", N: []uint64{1, 3, uint64(ival) / 2, uint64(ival)}[rng.Intn(4)]}}, callers[i][at:]...)...)
+				}
 			}
 		}
 		c := &harness.Case{Cfg: harness.MustJSON(cfg), Callers: callers}
@@ -226,6 +239,10 @@ func (P) Exec(c *harness.Case) *harness.Outcome {
 		return o
 	}
 	env := harness.Reset(cfg.Origin*1e6, harness.DefaultGeometry())
+	if cfg.First && cfg.Throttle {
+		execFirstThrottle(c, &cfg, o, env)
+		return o
+	}
 	if cfg.First {
 		execFirst(c, &cfg, o, env)
 		return o
@@ -468,6 +485,95 @@ func execFirst(c *harness.Case, cfg *Cfg, o *harness.Outcome, env *harness.Env) 
 		if got != want {
 			o.Fail("C05.first-requests-budget", 0, "%d callers offered %d single-token requests for value %q at one instant under threshold %d + burst %d (duration %d s): %d were admitted, the budget of a value seen for the first time allows exactly %d", k, offered[v], []string{"a", "b"}[v], cfg.T, cfg.Burst, cfg.DSec, got, want)
 			return
+		}
+	}
+}
+
+// execFirstThrottle: the callers of Cfg.First under a throttling rule. Every admitted request is scheduled at
+// (the instant it read the clock) + (the wait it was told); the clock only moves by the callers' own "tick"
+// ops, so that instant lies between the request's call and its return (or its Sleep). Two admitted requests
+// for one value whose pass times are less than floor(D/T) ms apart WHATEVER instants they read violate the
+// pacing, and so does a wait that is not below the maximum queueing time.
+func execFirstThrottle(c *harness.Case, cfg *Cfg, o *harness.Outcome, env *harness.Env) {
+	if cfg.T <= 0 || cfg.T > 100 || cfg.DSec > 10 {
+		return
+	}
+	rule := &hotspot.Rule{ID: "first", Resource: "res-first", MetricType: hotspot.QPS, ControlBehavior: hotspot.Throttling, ParamIndex: 0,
+		Threshold: cfg.T, MaxQueueingTimeMs: cfg.QMs, DurationInSec: cfg.DSec, ParamsMaxCapacity: cfg.Cap}
+	if !harness.Call(o, "C05.panic", 0, func() { _, _ = hotspot.LoadRules([]*hotspot.Rule{rule}) }) {
+		return
+	}
+	k := len(c.Callers)
+	clk := env.Clock
+	type pass struct {
+		task, v  int
+		lo, hi   uint64 // earliest and latest possible pass time, ms
+		wait     int64
+		from, to uint64
+	}
+	passes := make([][]pass, k)
+	slept := make([]int64, k)
+	sleptAt := make([]uint64, k)
+	clk.OnSleep = func(d time.Duration) {
+		if cur := sim.CurTask(); cur >= 0 && cur < k {
+			slept[cur] = int64(d / time.Millisecond)
+			sleptAt[cur] = clk.NowMs()
+		}
+	}
+	harness.RunE2(c, o, "C05", clk, k, func(task int) {
+		for _, op := range c.Callers[task] {
+			switch {
+			case op.K == "tick" && op.N > 0 && op.N <= 100000:
+				clk.AdvanceMs(uint64(op.N))
+			case op.K == "req" && op.E >= 0 && op.E <= 1:
+				from := clk.NowMs()
+				slept[task] = -1
+				e, _ := sentinel.Entry("res-first", harness.EntryOpts(1, false, []interface{}{[]string{"a", "b"}[op.E]}, nil, nil)...)
+				if e == nil {
+					continue
+				}
+				to, w := clk.NowMs(), int64(0)
+				if slept[task] >= 0 {
+					to, w = sleptAt[task], slept[task]
+				}
+				passes[task] = append(passes[task], pass{task: task, v: op.E, lo: from + uint64(w), hi: to + uint64(w), wait: w, from: from, to: to})
+				e.Exit()
+			}
+		}
+	}, nil)
+	if o.Failed() {
+		return
+	}
+	o.Probe("first_requests_of_a_value_from_several_callers")
+	var all []pass
+	for _, l := range passes {
+		all = append(all, l...)
+	}
+	ival := uint64(cfg.DSec * 1000 / cfg.T)
+	for i, a := range all {
+		if a.wait > 0 {
+			o.Probe("throttled_request_waited")
+			o.Nontrivial = true
+			if a.wait >= cfg.QMs {
+				o.Fail("C05.throttle-wait-reaches-max-queueing", 0, "caller %d's request for value %d was told to wait %d ms under a maximum queueing time of %d ms", a.task, a.v, a.wait, cfg.QMs)
+				return
+			}
+		}
+		for _, b := range all[i+1:] {
+			if a.v != b.v {
+				continue
+			}
+			far := uint64(0)
+			if b.hi > a.lo {
+				far = b.hi - a.lo
+			}
+			if a.hi > b.lo && a.hi-b.lo > far {
+				far = a.hi - b.lo
+			}
+			if far < ival {
+				o.Fail("C05.throttle-passes-too-close-among-callers", 0, "%d callers, throttling rule %d per %d s (passes at least %d ms apart): caller %d's request for value %d (issued in [%d,%d] ms, wait %d) and caller %d's (issued in [%d,%d] ms, wait %d) pass at most %d ms apart", k, cfg.T, cfg.DSec, ival, a.task, a.v, a.from-cfg.Origin, a.to-cfg.Origin, a.wait, b.task, b.from-cfg.Origin, b.to-cfg.Origin, b.wait, far)
+				return
+			}
 		}
 	}
 }
